@@ -10,7 +10,7 @@ RULE = ("filter definitions from the documented condition kinds (header fallback
         "action kinds (fileinto/redirect with :copy/:create/:flags, reject, keep, discard, stop, setflag/addflag/removeflag, vacation with "
         "all its tags), values over an alphabet with quotes, backslashes, commas, brackets, braces, semicolons, '#', CR/LF, comment and "
         "tag look-alikes and non-ASCII; sets reached by add/update/replace/disable/enable/move/remove; the rendering must be accepted by "
-        "a refused (raising) addfilter / updatefilter in between; the rendering must be accepted by the parser, classified VALID by the independent recogniser, begin with a require naming every extension used (frozen map), and "
+        "read-only accessors called in between and at the end; a refused (raising) addfilter / updatefilter in between; the rendering must be accepted by the parser, classified VALID by the independent recogniser, begin with a require naming every extension used (frozen map), and "
         "its token skeleton must equal that of the same definitions with inert placeholders while every string token unquotes to the "
         "supplied value; non-trivial = at least one value with a special character")
 
@@ -52,8 +52,18 @@ def build(r, nfilters, hostile):
         names.append(name)
     # editing operations applied to both in parallel
     for step in range(r.randint(0, 5)):
-        op = r.choice(["disable", "enable", "moveup", "movedown", "remove", "disable", "update", "update", "replace", "refused", "refused"])
+        op = r.choice(["disable", "enable", "moveup", "movedown", "remove", "disable", "update", "update", "replace", "refused", "refused", "observe", "observe"])
         nm = r.choice(names)
+        if op == "observe":
+            # read-only accessors: they must not change what the set renders to
+            for s_ in (fs, ph):
+                for fn in (s_.get_filter_actions, s_.get_filter_conditions, s_.get_filter_matchtype, s_.is_filter_disabled, s_.getfilter, s_.filter_exists):
+                    try:
+                        fn(nm)
+                    except Exception:  # noqa   (read-back of some supported forms raises: C19's business, not C06's)
+                        pass
+                str(s_)
+            continue
         if op == "refused":
             # a call the factory refuses with an exception (the caller catches it and goes on): the set must be unharmed
             bad_acts = r.choice([[("fileinto", ":copy", ":2024 archive")], [("fileinto", ":create", ":x y")], [("redirect", ":create", "a@b.c")],
@@ -106,6 +116,13 @@ def build(r, nfilters, hostile):
                 s.movefilter(nm, "down")
             elif op == "remove" and len(s.filters) > 1:
                 s.removefilter(nm)
+    for s_ in (fs, ph):       # and once more at the end, on every filter
+        for f_ in list(s_.filters):
+            for fn in (s_.get_filter_actions, s_.get_filter_conditions):
+                try:
+                    fn(f_["name"])
+                except Exception:  # noqa
+                    pass
     mapping = {}
     for d in allvals:
         mapping.update(d)
